@@ -41,6 +41,9 @@ SPECIAL = ['\t', '\n', '\r', '\r\n', ' ', '  ', '&', '<', '>', '"', "'", ']]>', 
 
 
 def tricky_string(rng):
+    if rng.random() < 0.04:
+        # longer than the writer's and lxml's internal buffers (elements of several kilobytes)
+        return ''.join(rng.choice(SPECIAL + list('abc xyz')) for _ in range(40)) * rng.choice([120, 260])
     k = rng.randrange(8)
     if k == 0:
         return rng.choice(SPECIAL)
@@ -117,6 +120,42 @@ def parse_all(data, validate=True):
     return items, None
 
 
+class ChunkLog(io.BytesIO):
+    """output of the writer that remembers the pieces it was written in"""
+    def __init__(self):
+        super().__init__()
+        self.pieces = []
+
+    def write(self, b):
+        self.pieces.append(bytes(b))
+        return super().write(b)
+
+
+def push_parse(chunks, validate=True):
+    from edxml import EDXMLPushParser
+    from edxml.error import EDXMLError
+    items = []
+
+    class P(EDXMLPushParser):
+        def _parsed_ontology(self, o):
+            super()._parsed_ontology(o)
+            items.append(('ontology', c08lib.semantic(o.generate_xml())))
+
+        def _parsed_event(self, ev):
+            items.append(('event', observe(ev)))
+    try:
+        p = P(validate=validate)
+        for c in chunks:
+            if c:
+                p.feed(c)
+        p.close()
+    except EDXMLError as ex:
+        return items, '%s: %s' % (type(ex).__name__, ' '.join(str(ex).split())[-200:])
+    except Exception as ex:
+        return items, 'foreign %s: %s' % (type(ex).__name__, str(ex)[:200])
+    return items, None
+
+
 def run_filter(data, push=False):
     from edxml.filter import EDXMLPullFilter, EDXMLPushFilter
     out = io.BytesIO()
@@ -141,18 +180,22 @@ def scenario(ck, rng, idx):
     U = upgrade(B, additions=rng.random() < 0.5)
     pretty = rng.random() < 0.5
     plan = []
-    out = io.BytesIO()
-    ops = ['O'] + ['E'] * rng.randint(1, 4) + (['U'] + ['E'] * rng.randint(1, 4) if rng.random() < 0.6 else [])
+    out = ChunkLog()
+    ops = ['O'] + ['E'] * rng.randint(1, 4) + (['U'] + ['A'] * rng.randint(0, 2) + ['E'] * rng.randint(1, 4) if rng.random() < 0.6 else [])
     upgraded = False
     w = EDXMLWriter(out, validate=True, pretty_print=pretty)
     written, history = [], []
     from edxml import EDXMLPullParser
     for op in ops:
-        if op in 'OU':
+        if op in 'OUA':
+            if op == 'A':
+                # one more ontology element right after the previous one: the upgrade plus another source
+                U = copy.deepcopy(U)
+                U['sources'].append(OL.SOURCE('/more%d/' % len(U['sources'])))
             d = B if op == 'O' else U
-            upgraded = op == 'U'
+            upgraded = op != 'O'
             w.add_ontology(OL.load_element(d))
-            history.append(['ontology', 'base' if op == 'O' else 'upgrade'])
+            history.append(['ontology', {'O': 'base', 'U': 'upgrade', 'A': 'upgrade-and-one-more-source'}[op]])
             written.append(('ontology', None))
         else:
             e = gen_event(rng, upgraded)
@@ -203,6 +246,33 @@ def scenario(ck, rng, idx):
             field = next(k for k in a if a[k] != b[k])
             ck.oracle_failures.append({'signature': 'event-changed/%s' % field, 'input': inp,
                                        'observed': 'event %d: %s written %r, parsed %r' % (i, field, a[field], b[field])})
+            return
+    # a validating push parser reading the document in the pieces the writer produced, and in random pieces
+    cuts = sorted(rng.sample(range(1, len(data)), min(len(data) - 1, rng.randint(1, 6))))
+    for how, chunks in (('writer-pieces', out.pieces), ('random-pieces', [data[a:b] for a, b in zip([0] + cuts, cuts + [len(data)])])):
+        items_p, err = push_parse(chunks)
+        if err or items_p != items:
+            # known defect (C06): a piece ends between a white-space-only value and its end tag. Is that the only reason?
+            import re as _re
+            pos, merged, cur, blank = 0, [], b'', False
+            for c in chunks:
+                pos += len(c)
+                cur += c
+                if _re.search(rb'>[ \t\r\n]+<$', data[:pos]) and data[pos:pos + 1] == b'/':
+                    blank = True
+                    continue
+                merged.append(cur)
+                cur = b''
+            merged.append(cur)
+            if blank:
+                items_m, err_m = push_parse(merged)
+                if not err_m and items_m == items:
+                    ck.oracle_failures.append({'signature': 'push-parser/blank-value-cut-before-end-tag', 'input': dict(inp, chunk_lengths=[len(c) for c in chunks]),
+                                               'observed': err or 'items differ from the pull parse of the same document'})
+                    return
+            ck.oracle_failures.append({'signature': 'push-parser-%s/%s' % ('rejects' if err else 'differs', how),
+                                       'input': dict(inp, chunk_lengths=[len(c) for c in chunks]),
+                                       'observed': err or 'items differ from the pull parse of the same document'})
             return
     # order of ontology / event items
     if [k for k, _ in items] != [k for k, _ in written]:
